@@ -3,7 +3,7 @@
 (* Declarative meaning of the library's pure operations, one judgement per *)
 (* operation:  Judge(record) = set of clauses the recorded call violates.  *)
 (***************************************************************************)
-EXTENDS ClassIds, TLC
+EXTENDS ClassIds, F2, TLC
 
 C(cond, clause) == IF cond THEN {} ELSE {clause}
 
@@ -49,7 +49,28 @@ JudgeConnGraph(r) ==
    \cup C(r.nv = r.n, "coupling-graph")
    \cup C(FromRows(r.n, r.rows) = FromEdgeSet(r.n, Coupling(r.n, r.conn)), "coupling-graph")
 
+(***************************************************************************)
+(* f2_algebra (C18): one record = the four routines called on one matrix.  *)
+(* A: m x n input; R, piv: rref(A); rank; R2, M, Minv: rref_and_basis_     *)
+(* change(A); ns: null_space(A) with shape / dtype kind; unchanged flag.   *)
+(***************************************************************************)
+JudgeF2(r) ==
+   IF ~IsBinary(r.A, r.m, r.n) THEN {"bad-input"} ELSE
+   LET Rx == Rref(r.A, r.n)
+       px == PivotCols(Rx)
+   IN  C(r.R = Rx, "rref")
+       \cup C(r.piv = px, "pivots")
+       \cup C(r.rank = Len(px), "rank")
+       \cup C(r.R2 = Rx, "rref2")
+       \cup C(IsBinary(r.M, r.m, r.m) /\ MatMul(r.M, r.A, r.n) = Rx, "basis-change")
+       \cup C(IsBinary(r.M, r.m, r.m) /\ IsBinary(r.Minv, r.m, r.m) /\ MatMul(r.M, r.Minv, r.m) = IdentityMat(r.m), "inverse")
+       \cup C(r.ns.ok = 1 /\ r.ns.shape = <<r.n - Len(px), r.n>> /\ r.ns.intdtype = 1, "well-typed")
+       \cup C(r.ns.ok = 1 /\ IsKernelBasis(r.ns.rows, r.A, r.n), "kernel")
+       \cup C(r.n > 10 \/ (r.ns.ok = 1 /\ RowSpace(r.ns.rows) = Kernel(r.A, r.n)), "kernel-exact")
+       \cup C(r.unchanged = 1, "args-mutated")
+
 Judge(r) == CASE r.op = "classify" -> JudgeClassify(r)
+              [] r.op = "f2" -> JudgeF2(r)
               [] r.op = "conn_graph" -> JudgeConnGraph(r)
               [] r.op = "mubfam" -> JudgeMubFam(r)
               [] OTHER -> {"unknown-op"}
